@@ -329,6 +329,14 @@ func (g *seqGen) next(s *preconfirmed.ChainStorage, head uint64) OpSpec {
 			return OpSpec{Op: "apply", U: u, Num: aligned, Oldest: aligned}
 		}
 	}
+	if r.Chance(1, 40) { // an ill-formed wire update at the tip or the next slot
+		u := g.block(g.newIdent(), 1+r.Intn(3))
+		if r.Bool() {
+			u = &UpdateSpec{Kind: "D", Ident: ci.ident[ci.tip], Txs: genTxs(r, 1+r.Intn(2), &g.seq, func() DiffSpec { return genAnyDiff(r, 2) })}
+		}
+		u.Malform = lib.Pick(r, []string{"short-receipts", "short-diffs", "nil-receipt", "nil-diff"})
+		return OpSpec{Op: "apply", U: u, Num: ci.tip + uint64(r.Intn(2)), BaseTx: uint64(ci.ntx[ci.tip]), Oldest: oldestArg}
+	}
 	tipIdent, tipTx := ci.ident[ci.tip], ci.ntx[ci.tip]
 	inChain := func() uint64 { return ci.oldest + uint64(r.Intn(int(ci.tip-ci.oldest)+1)) }
 	d := r.Intn(100)
